@@ -489,6 +489,9 @@ def run(ctx, tier):
     import c15
     results += c15.legacy_fallback(ctx, rule='C12.legacy-conversion')
     results += c02.alternate_rule(ctx, rule='C12.alternate')
+    results += commit.obligations(ctx)['O0']
+    from core import renamed
+    results += renamed(c02.cow_write_set(ctx), 'C02', 'C12')
     results += c02.cow_free_set(ctx, rule='C12.fallback-kept')
     results += c02.pending_key(ctx, rule='C12.fallback-kept.key')
     import c06
